@@ -224,7 +224,7 @@ func checkC14(p *Prog, r *Report) {
 			r.Check("R4", base, okKey && okMsg, p.InstrPos(c), fmt.Sprintf("key %s; message %v", Path(args[0]), got))
 		})
 	}
-	r.Floor("R4", "trigger call sites", nTrig, 4)
+	r.Floor("R4", "trigger call sites", nTrig, 2)
 	r.Assumes("callbacks are application code started with go; a started callback runs once")
 }
 
